@@ -47,6 +47,12 @@ def run(ctx: RuleContext):
     ctx.sub(check_param_kinds, ctx, r, "C07.6")
     ctx.sub(check_coroutine_coverage, ctx, r)
     ctx.sub(check_exception_transparency, ctx, r)
+    # C07.9: whether a call is checked is decided per call -- a decorator that looks at the disable switch (or at
+    # `__no_type_check__`) when the function is *decorated* hands back an unchecked function for good: its body runs on
+    # ill-typed arguments after the switch is turned off again (C19.1's decoration-time clause)
+    from .c19 import check_no_decoration_time_switch
+
+    ctx.reuse("C07.9", check_no_decoration_time_switch, ctx, "C07.9")
 
 
 # ------------------------------------------------------------------------ C07.8
@@ -149,9 +155,15 @@ def check_once(ctx, r):
         n_fn += 1
         g = NoReturn(m).cfg(f)
 
+        def impl_calls(node):
+            """calls of the checking implementation, which calls fn itself (whether it got that far when it raises is unknown)"""
+            if f.qualname in impls:
+                return []
+            return [c for c in node_calls(node) if m.resolve_call(f, c).kind == "func" and m.resolve_call(f, c).target.qualname in impls]
+
         def transfer(node, st, kind, succ):
             cnt = st
-            calls = _fn_calls(node)
+            calls = _fn_calls(node) + impl_calls(node)
             if calls and kind in NORMAL:
                 cnt = min(cnt + len(calls), 3)
             elif calls:
@@ -179,6 +191,12 @@ def check_once(ctx, r):
             v = n.ast.value
             for stt in fl.states_at(n):
                 after = stt + len(_fn_calls(n))
+                if isinstance(v, ast.Name):
+                    # `out = impl(..)` ... `return out`: the delegation was counted where it was evaluated
+                    d_ = c05._assignments_to(f, v.id)
+                    if len(d_) == 1 and d_[0][2] is None and isinstance(d_[0][1], ast.Call) and m.resolve_call(f, d_[0][1]).kind == "func" \
+                            and m.resolve_call(f, d_[0][1]).target.qualname in impls:
+                        stt = max(0, stt - 1)
                 delegates = False
                 if isinstance(v, ast.Name):
                     defs0 = c05._assignments_to(f, v.id)
